@@ -8,7 +8,7 @@ COQ_EXTRACT = "Extract_C03.v"
 LEVEL = "proof"
 RULE = ("cases = explicit tree automata over {a/0,b/0,g/1,f/2}: corpus, the complete slice of automata with <=2 states and "
         "<=3 rules (2788, every final set), a targeted family (|reachable| = |rule owners| with different sets, finals without "
-        "rules, unproductive children, no finals) and random automata up to 5 states / 10 rules; a case is non-trivial when "
+        "rules, unproductive children, no finals), histories (the three calls repeated on objects derived from earlier operands and results: selective copies with other final states, final states replaced in place, results trimmed again) and random automata up to 5 states / 10 rules; a case is non-trivial when "
         "the automaton has a non-empty language and at least one useless or unreachable state or rule (distinct by rule/final sets)")
 TRUSTED_BASE = [
     "Coq 8.16.1 kernel (coqc, full .vo build); vm_compute only in the *_refuted witness and Examples; no native_compute",
@@ -50,6 +50,15 @@ def cases(rng, tier):
     for a in gen.enum_ta(1, 4): cases.append(("trim " + a.fmt(), "exhaustive"))
     for a in gen.enum_ta(2, maxr): cases.append(("trim " + a.fmt(), "exhaustive"))
     for a in targeted(rng): cases.append(("trim " + a.fmt(), "targeted"))
+    for _ in range(1500 if tier == "quick" else 20000):   # histories: the calls repeated on objects derived from earlier operands / results
+        a = gen.rand_ta_sized(rng, 5, 9, sigma=rng.choice([gen.SIGMA, gen.SIGMA_U]), leafbias=rng.choice([0.2, 0.4]), pfinal=rng.choice([0.3, 0.9]))
+        st = sorted(a.states()) or [0]
+        line = "trimh " + a.fmt()
+        for _ in range(rng.randint(1, 4)):
+            mode = rng.choice([0, 0, 1, 1, 2, 3, 4])
+            fin = [q for q in st if rng.random() < 0.3] or [rng.choice(st)]
+            line += " %d %d %s" % (mode, len(fin), " ".join(str(f) for f in fin))
+        cases.append((line, "history"))
     n = 3000 if tier == "quick" else 60000
     for _ in range(n):
         a = gen.rand_ta_sized(rng, 5, 10, sigma=rng.choice([gen.SIGMA, gen.SIGMA3]))
@@ -73,15 +82,32 @@ def nontrivial(c, impl, verd):
 def observe(dist, c, impl, verd):
     k = "empty_language" if " empty" in verd else "nonempty_language"
     dist[k] = dist.get(k, 0) + 1
+    if " history" in verd: dist["history"] = dist.get("history", 0) + 1
     if " dead" in verd: dist["has_dead_part"] = dist.get("has_dead_part", 0) + 1
     n = c.count(" ")
     b = "tokens<=10" if n <= 10 else "tokens<=25" if n <= 25 else "tokens>25"
     dist[b] = dist.get(b, 0) + 1
 
-def shrink_candidates(c): return gen.shrink_automata(c)
+def shrink_candidates(c):
+    if not c.startswith("trimh"): return gen.shrink_automata(c)
+    return shrink_history(c)
+def shrink_history(c):
+    """drop a stage; drop a rule of the first automaton; (state merging would have to rename the stages' final states: not attempted)"""
+    items = gen.split_case(c); a = items[1]; rest = items[2:]
+    stages = []; i = 0
+    while i < len(rest):
+        nf = int(rest[i + 1]); stages.append(rest[i:i + 2 + nf]); i += 2 + nf
+    for k in range(len(stages)):
+        yield gen.join_case([items[0], a] + [x for j, s in enumerate(stages) if j != k for x in s])
+    for j in range(len(a.rules)):
+        b = a.copy(); b.rules.pop(j)
+        yield gen.join_case([items[0], b] + rest)
+    for j in range(len(a.finals)):
+        b = a.copy(); b.finals.pop(j)
+        yield gen.join_case([items[0], b] + rest)
 
 def explain(c, impl, verd):
-    return ("case = automaton (T nfinals finals nrules {sym parent arity children}); impl = U <RemoveUnreachableStates> L <RemoveUselessStates> "
+    return ("case = automaton (T nfinals finals nrules {sym parent arity children}), for trimh followed by stages <mode> <final states> (0 selective copy of the current object, 1 the same object with its final states replaced, 2/3 selective copy of the last RemoveUnreachable/RemoveUseless result, 4 the last RemoveUseless result; each stage prints V <value> and the calls again, gates prefixed again_; history_value = the derived object does not show the value it must); impl = U <RemoveUnreachableStates> L <RemoveUselessStates> "
             "E <IsLangEmpty> I <operand afterwards>; gates: unreach = same language and every remaining state top-down reachable; "
             "useless = same language and every remaining state/rule in an accepting run; empty = verdict equals emptiness")
 
